@@ -40,6 +40,14 @@ CHECKS = {
     "C20": ("abstract interpretation of MIR: effect summary of cost terms vs the manual's advanced-mode cycle table",
             "For all 238 forms: multiset of (kind, count, address) cost terms equals the table; address operands compared as bit-vectors with the EA / "
             "stack / vector address; returned charge == sum of the terms for all values.", "4 C20"),
+    "C09": ("abstract interpretation of MIR over a symbolic address (array abstraction of the backing stores) + who-may-write scan",
+            "All 2^32 addresses at once: accepted set == the five regions for read and write, errors touch nothing, each region maps injectively "
+            "(addr - START) into its own store, read/write agree, plain writes store exactly the written byte once; every other writer of the stores in "
+            "the crate is enumerated. The history clause follows from these frame facts by induction (stated, not mechanised).", "4 C09"),
+    "C19": ("abstract interpretation of MIR with symbolic address, count and bus-controller registers; BDD equality with the reference cost function",
+            "Complete decision table of calc_state_with_addr for the six kinds, all addresses, all ABWCR/ASTCR/WCRH/WCRL/DRCRA values, counts 0-18: "
+            "equals the reference (1 / 2 / 2 / 3+w / 4+w, doubled for word kinds on an 8-bit bus), linear in the count, independent of other areas; "
+            "calc_state costs at operating_pc and rejects L/M.", "4 C19"),
 }
 
 checks = []
